@@ -48,7 +48,7 @@ def run(tier, seed, opens):
     class Down(Exception):
         pass
 
-    orig = {m: getattr(bt.BitcoinLibTestClient, m, None) for m in ('gettransactions', 'gettransaction', 'blockcount', 'getrawtransaction')}
+    orig = {m: getattr(bt.BitcoinLibTestClient, m, None) for m in ('gettransactions', 'gettransaction', 'blockcount', 'getrawtransaction', 'getutxos')}
 
     def p_gettransactions(self, addr, after_txid='', limit=20):
         state['calls'] += 1
@@ -72,13 +72,32 @@ def run(tier, seed, opens):
     def p_blockcount(self):
         return state['height']
 
-    def fail(what, inp, observed, expected):
+    def p_getutxos(self, addr, after_txid='', limit=20):
+        state['calls'] += 1
+        if state['down']:
+            raise Down('provider down')
+        txs = list(state['chain'])
+        if after_txid:
+            ids = [t.txid for t in txs]
+            txs = txs[ids.index(after_txid) + 1:] if after_txid in ids else []
+        return [{'address': addr, 'txid': t.txid, 'confirmations': t.confirmations, 'output_n': 0, 'input_n': 0, 'block_height': t.block_height,
+                 'fee': t.fee, 'size': 0, 'value': t.outputs[0].value, 'script': '', 'date': t.date} for t in txs][:limit]
+
+    listed = {o.get('id') for o in opens}
+
+    def fail(what, inp, observed, expected, pid=None):
+        if pid is not None and pid in listed:
+            known.setdefault(pid, [])
+            if len(known[pid]) < 2:
+                known[pid].append({'input': inp, 'observed': observed, 'expected': expected, 'confirmed': True, 'obligation': 'service-cache#bounded', 'what': what})
+            return
         if len(failed) < 6:
             failed.append({'input': inp, 'observed': observed, 'expected': expected, 'confirmed': True, 'obligation': 'service-cache#bounded', 'what': what})
 
     bt.BitcoinLibTestClient.gettransactions = p_gettransactions
     bt.BitcoinLibTestClient.gettransaction = p_gettransaction
     bt.BitcoinLibTestClient.blockcount = p_blockcount
+    bt.BitcoinLibTestClient.getutxos = p_getutxos
     try:
         maxn = 4 if tier == 'quick' else 5
         cfg = 0
@@ -149,6 +168,40 @@ def run(tier, seed, opens):
                         ok += 1
                     except Exception as e:
                         fail('warm gettransaction', dict(scen, txid=t.txid[-6:]), 'raised %s: %s' % (type(e).__name__, str(e)[:150]), 'stored transaction or ServiceError')
+        # unspent outputs: the cache holds some of the address's transactions (fetched one by one), with the spent status of the output either
+        # known (False) or unknown (None: the provider gave no spent information); every output is in fact unspent, so getutxos must return
+        # all of them, in order, whatever part came from the cache
+        for n in range(1, 4):
+            for flags in itertools.product((False, None), repeat=n):
+                for cached in itertools.product((False, True), repeat=n):
+                    cfg += 1
+                    db = 'sqlite:///' + os.path.join(tmp, 'u%d.sqlite' % cfg)
+                    state['chain'] = [make_tx(i, 100 + i) for i in range(n)]
+                    for t, kn in zip(state["chain"], flags):
+                        t.outputs[0].spent = kn
+                        t.outputs[1].spent = kn
+                    state['down'] = False
+                    want = [t.txid for t in state['chain']]
+                    scen = {'outputs_spent_flag_in_cache': [repr(k) for k in flags], 'transactions_cached': list(cached)}
+                    cases += 1
+                    try:
+                        srv = Service(network=net, cache_uri=db)
+                        for t, c in zip(state['chain'], cached):
+                            if c:
+                                srv.gettransaction(t.txid)
+                        srv = Service(network=net, cache_uri=db)
+                        got = [u['txid'] for u in srv.getutxos(address)]
+                        if got != want:
+                            # recorded finding: an earlier transaction that is NOT in the cache while a later one is - its output is skipped
+                            gap = {t.txid for i, t in enumerate(state['chain']) if not cached[i] and any(cached[i + 1:])}
+                            missing = [w for w in want if w not in got]
+                            pinned = bool(gap) and set(missing) <= gap and [w for w in want if w in got] == got
+                            fail('getutxos with a partially filled cache', scen, repr([g[-6:] for g in got]), repr([w[-6:] for w in want]),
+                                 'F-C20-getutxos-cache-gap' if pinned else None)
+                        else:
+                            ok += 1
+                    except Exception as e:
+                        fail('getutxos with a partially filled cache', scen, 'raised %s: %s' % (type(e).__name__, str(e)[:150]), 'all unspent outputs')
     finally:
         for m, f in orig.items():
             if f is None:
